@@ -7,7 +7,9 @@ def run(tier):
     exe = vlib.build(["drv_datatext"])["drv_datatext"]
     c.mc("DataText", "MC_DataText", workers=8, timeout=1500)
     nsh = 8 if tier == "quick" else 16
-    traces = c.drive(exe, [["@OUT", tier, vlib.SEED, i, nsh] for i in range(nsh)], tag="dt")
+    traces = []
+    for k, sd in enumerate(vlib.seeds(tier, 2)):
+        traces += c.drive(exe, [["@OUT", tier, sd, i, nsh] for i in range(nsh)], tag="dt%d" % k)
     bads = c.validate("DataText", "Trace_DataText", traces, timeout=3400, xmx="6g")
     c.judge(bads)
     c.rule = ("format_data_string: every byte string of length <=1, all pairs over 21 syntax-relevant characters, random "
